@@ -266,8 +266,11 @@ def run(ctx: Any, prog: Program) -> None:
     chain = fs.methods('FileSystemChain')
     allowed = {'_get_file', 'walk_folder', 'open_str', 'open_bin', '_file_exists', 'cache_key', '_get_cache_key', 'path'}
     for name, fn in chain.items():
+        # the member variable: first target of `for <member>, <prefix> in self.systems`, or what a File's .sys / stored member is bound to
+        member_vars = {l.target.elts[0].id for l in walk_no_nested(fn) if isinstance(l, ast.For) and dotted(l.iter) == 'self.systems' and isinstance(l.target, ast.Tuple) and l.target.elts
+                       and isinstance(l.target.elts[0], ast.Name)} | {'sys'}
         for c in walk_no_nested(fn):
-            if isinstance(c, ast.Call) and isinstance(c.func, ast.Attribute) and dotted(c.func.value) == 'sys':
+            if isinstance(c, ast.Call) and isinstance(c.func, ast.Attribute) and isinstance(c.func.value, ast.Name) and c.func.value.id in member_vars:
                 ctx.check('C18.S4', c.func.attr in allowed, fs, c, f'FileSystemChain.{name} calls sys.{c.func.attr}(): member filesystems may only be reached through lookup/walk/open', func=f'FileSystemChain.{name}',
                           text=f'{name}: sys.{c.func.attr}')
             if isinstance(c, ast.Call) and dotted(c.func) in SINKS:
